@@ -16,6 +16,9 @@ first-principles oracle (rules/oracle/gregorian.py), for the whole supported ran
  RF2-range    the validity bound of __daisy_to_ymd covers every day of the supported range
  RF9-yearadj  the readjustment tests of __daisy_get_year agree with each other and with the convention day count = year start +
               day of year (>= 1)
+ RF7-leapsrc  the period-length helpers (__get_mdays, __get_ydays, __md_get_yday) use the year only as a call argument: the leap rule
+              has one source, __leapp
+ RF9-hang     every week carry across a year boundary tests the leapness of the year that is crossed (y++ forward, --y backward)
  RF1-conv     every converter dt_conv_to_* handles every source representation the property names
 """
 import re
@@ -600,6 +603,61 @@ def check_ymd2daisy(P, R, tu, base):
                   % (got, y, m, G.daisy(y, m, 1, base), len(bad), (ymax - ymin + 1) * 12))
 
 
+def check_leap_source(P, R, tu):
+    """the leap rule lives in __leapp (checked by RF2-leap): the period-length helpers must take the year's leapness from there,
+    i.e. use their year parameter only as an argument of calls, never in arithmetic of their own"""
+    rule = "RF7-leapsrc"
+    n = 0
+    for name, yi in (("__get_mdays", 0), ("__get_ydays", 0), ("__md_get_yday", 0)):
+        fn = tu.func(name)
+        if fn is None:
+            raise AnalysisBroken("%s vanished" % name)
+        R.saw(fn)
+        y = fn.params[yi]["d"]
+        bad = None
+        uses = 0
+        for x in fn.walk():
+            if x.get("k") == "DeclRefExpr" and x.get("d") == y:
+                uses += 1
+                par = fn.parent(x)
+                while par is not None and par.get("k") in CASTS:
+                    par = fn.parent(par)
+                if not (par is not None and par.get("k") == "CallExpr"):
+                    bad = par if par is not None else x
+        n += 1
+        if bad is None:
+            R.ob(rule, "%s hands its year to helpers only (%d uses)" % (name, uses), True)
+        else:
+            R.finding(rule, fn, "own year arithmetic", "%s computes with the year itself (`%s`) instead of asking __leapp: a private leap "
+                      "rule (every 4th year) is wrong for 1700, 1800, 1900, 2100, ..." % (name, expr_text(bad)[:60]), bad)
+    R.floor(rule, "period length helpers", n, 3)
+
+
+def check_hang(P, R, tu):
+    """ISO week dates cache the offset of the week grid against the year (`hang`).  When a week carry crosses a year boundary the
+    offset moves by the length of the year that is crossed: going forward that is the year being left (leapness tested before the
+    year is incremented), going backward the year being entered (tested after the decrement).  All sites must agree on that."""
+    rule = "RF9-hang"
+    n = 0
+    for fn in tu.funclist:
+        if not fn.file.endswith("ywd.c"):
+            continue
+        for c in fn.calls("__leapp"):
+            a = strip(call_args(c)[0])
+            if a is None or a.get("k") != "UnaryOperator" or a.get("op") not in ("++", "--"):
+                continue
+            n += 1
+            R.saw(fn)
+            form = (a["op"], bool(a.get("postfix")))
+            if form in (("++", True), ("--", False)):
+                R.ob(rule, "%s: __leapp(%s) tests the year that is crossed" % (fn.name, "y++" if form[0] == "++" else "--y"), True)
+            else:
+                R.finding(rule, fn, "__leapp(%s)" % expr_text(a), "the carry tests the leapness of the wrong year: going forward the year "
+                          "being left decides (y++), going backward the year being entered (--y); `%s` looks at the other one, so the "
+                          "cached offset is a day off whenever exactly one of the two years is a leap year" % expr_text(a), c)
+    R.floor(rule, "year-crossing leap tests in the ISO week code", n, 4)
+
+
 def check_yearadj(P, R, tu):
     """the year of a day count: estimate, then step back while the year's day 0 is not before the day.  __yd_to_daisy defines
     the convention (day count = year start + day of year, day of year >= 1), so `start >= d` is the only test that is right
@@ -682,6 +740,8 @@ def check(P, R, tier):
     check_bases(P, R, tu, dtu, base)
     check_range(P, R, tu, base)
     check_yearadj(P, R, tu)
+    check_leap_source(P, R, tu)
+    check_hang(P, R, tu)
     check_ymd2daisy(P, R, tu, base)
     check_conv(P, R, tu)
 
